@@ -54,6 +54,7 @@ M = [
  ("m18-gen-tolower", "C18", "v3/cmd/zlint-gtld-update/main.go", "GTLD: strings.ToLower(tld),", "GTLD: tld,"),
  ("m18-gen-tldlist-wins", "C18", "v3/cmd/zlint-gtld-update/main.go", "if _, found := tldMap[tld.GTLD]; !found {", "if _, found := tldMap[tld.GTLD]; found || !found {"),
  ("m18-gen-undelegated-kept", "C18", "v3/cmd/zlint-gtld-update/main.go", "\t\tif gTLD.DelegationDate == \"\" {\n\t\t\tcontinue\n\t\t}\n", ""),
+ ("m19-mask-holes", "C19", "v3/util/ip.go", " || networksShareAddress(&net, reserved)", ""),
  ("m19-delete-block", "C19", "v3/util/ip.go", "{\"100.64.0.0/10\"}", "{\"100.64.0.0/11\"}"),
  ("m19-typo", "C19", "v3/util/ip.go", "\"198.18.0.0/15\"", "\"198.18.0.0/16\""),
  ("m20-edit-one-copy", "C20", "v3/lints/rfc/lint_ext_ian_space_dns_name.go", None, None),
